@@ -1002,27 +1002,9 @@ impl Hyb {
                 Res::unit()
             }
             Op::Close => {
-                let keys = case.get("keys").max(1) as u64 + case.get("fresh_keys").max(0) as u64;
                 let first_close = ST.with(|s| s.borrow().close_ver.is_none());
                 if first_close {
-                    for k in 0..keys {
-                        if cache.memory().contains(&k) {
-                            // the version memory actually holds, and how many references besides this probe are outstanding
-                            // (handles held by the client or by background tasks; under LRU such an entry is pinned)
-                            if let Some(e) = cache.memory().get(&k) {
-                                let extra = e.refs().saturating_sub(1);
-                                if let Tagged::Ok { key, ver, .. } = check_value(e.value()) {
-                                    if key == k {
-                                        hist::ev("resident_at_close", k, ver as u64, extra as u64);
-                                    }
-                                }
-                            }
-                        }
-                    }
-                    ST.with(|s| {
-                        let mut s = s.borrow_mut();
-                        s.close_ver = Some(s.next_ver);
-                    });
+                    record_residents(&case, &cache);
                 }
                 hist::ev("close_inv", 0, 0, 0);
                 let r = cache.close().await;
@@ -1109,6 +1091,44 @@ impl Hyb {
                         drop(cache);
                         hist::fault("crash_restart");
                         self.shutdown(false).await;
+                        return Res::boolean(self.reopen().await);
+                    }
+                    // drop without close: the last handle is dropped; foyer closes (and, configured so, flushes) in a
+                    // background task. The harness waits for exactly that task, lets the device go idle, shuts the
+                    // runtime down and reopens.
+                    31 => {
+                        self.unhold_flush();
+                        self.held.clear();
+                        let first_close = ST.with(|s| s.borrow().close_ver.is_none());
+                        if first_close {
+                            record_residents(&case, &cache);
+                        }
+                        hist::fault("drop_without_close");
+                        hist::ev("close_inv", 1, 0, 0);
+                        drop(cache);
+                        if let Some(f) = MEM_CONTAINS.with(|m| m.borrow_mut().take()) {
+                            drop(std::mem::ManuallyDrop::into_inner(f));
+                        }
+                        let n0 = Spawner::verif_task_count();
+                        drop(self.cache.take());
+                        let n1 = Spawner::verif_task_count();
+                        if n1 == n0 {
+                            hist::probe("drop_spawned_no_close_task");
+                        }
+                        let mut spins = 0u32;
+                        while !(n0..n1).all(Spawner::verif_is_finished) {
+                            shuttle::future::yield_now().await;
+                            spins += 1;
+                            if spins > 400_000 {
+                                hist::violation(&case.property, "close-on-drop-did-not-finish", "the background close started by dropping the last handle did not finish".into(), &[]);
+                                break;
+                            }
+                        }
+                        hist::ev("close_ret", 1, 0, 0);
+                        simdev::quiesce().await;
+                        ST.with(|s| s.borrow_mut().closed = true);
+                        self.shutdown(false).await;
+                        ST.with(|s| s.borrow_mut().close_ver = None);
                         return Res::boolean(self.reopen().await);
                     }
                     // abandoned lookup: the caller starts a lookup of key `arg & 0xffff`, polls it `arg >> 16` times and
@@ -1301,6 +1321,29 @@ pub fn exec(case: &Case) {
         crate::run::phase_done();
         h.shutdown(true).await;
         hist::ev("end", 0, 0, 0);
+    });
+}
+
+/// What memory holds right before a close (explicit, or by dropping the last handle): the version of each resident key
+/// and how many references besides this probe are outstanding (handles held by the client or by background tasks; under
+/// LRU such an entry is pinned).
+fn record_residents(case: &Case, cache: &HCache) {
+    let keys = case.get("keys").max(1) as u64 + case.get("fresh_keys").max(0) as u64;
+    for k in 0..keys {
+        if cache.memory().contains(&k) {
+            if let Some(e) = cache.memory().get(&k) {
+                let extra = e.refs().saturating_sub(1);
+                if let Tagged::Ok { key, ver, .. } = check_value(e.value()) {
+                    if key == k {
+                        hist::ev("resident_at_close", k, ver as u64, extra as u64);
+                    }
+                }
+            }
+        }
+    }
+    ST.with(|s| {
+        let mut s = s.borrow_mut();
+        s.close_ver = Some(s.next_ver);
     });
 }
 
